@@ -119,12 +119,19 @@ func c17NewConfig(https, post, custom bool) *c17Config {
 				mu.Lock()
 				defer mu.Unlock()
 				n++
-				// a partial function: it has nothing custom to say about /page2 and returns "",
+				// a partial function: it has nothing custom to say about /docs/... (flow 2) and returns "",
 				// which leaves that flow with the default (random) index
-				if strings.Trim(r.URL.Path, "/") == "page2" {
+				if strings.HasPrefix(r.URL.Path, "/docs/") {
 					return ""
 				}
-				return fmt.Sprintf("rs-%d-%s", n, strings.Trim(r.URL.Path, "/"))
+				// (the index becomes part of a cookie name: the function sticks to characters a cookie name may hold)
+				safe := strings.Map(func(c rune) rune {
+					if (c >= 'a' && c <= 'z') || (c >= 'A' && c <= 'Z') || (c >= '0' && c <= '9') {
+						return c
+					}
+					return '-'
+				}, strings.Trim(r.URL.Path, "/"))
+				return fmt.Sprintf("rs-%d-%s", n, safe)
 			}
 		}
 		m, err := samlsp.New(opts)
@@ -147,7 +154,18 @@ func c17NewConfig(https, post, custom bool) *c17Config {
 
 func (c *c17Config) acs() string      { return c.root + "/saml/acs" }
 func (c *c17Config) audience() string { return c.root + "/saml/metadata" }
-func (c *c17Config) uri(k int) string { return fmt.Sprintf("/page%d?flow=%d", k, k) }
+// uri is the page flow k starts at.  The pages differ in what a URL may legitimately contain: a plain path
+// and query, percent-encoded reserved characters in the path (which a re-encoding of the decoded path would
+// lose), a query with encoded separators and an empty value.
+func (c *c17Config) uri(k int) string {
+	switch k {
+	case 1:
+		return "/page1?flow=1"
+	case 2:
+		return "/docs/2024%2F05%2Freport%20v2.pdf?flow=2&q=a%26b%3Dc&empty="
+	}
+	return fmt.Sprintf("/page%d?flow=%d", k, k)
+}
 
 // ---------------------------------------------------------------------------
 // concrete state
